@@ -161,7 +161,14 @@ def build_traces(path, tier, seed):
         if tid % 6 == 1:
             import eqsig
             from eqsig.fns import peaks_and_crossings as pc_
-            allp = pc_.get_peak_indices(eqsig.Signal(np.asarray(arg), 0.01))       # signal-level wrapper
+            sobj_ = [eqsig.Signal, eqsig.AccSignal][int(rng.integers(2))](np.asarray(arg), 0.01)
+            if rng.integers(2):
+                # the object was analysed while it held another record, then its values were replaced through the public API
+                other_ = rand_series(rng, n if rng.integers(2) else int(rng.integers(2, 50)))
+                sobj_ = type(sobj_)(other_, 0.01)
+                _ = pc_.get_peak_indices(sobj_)
+                sobj_.reset_values(np.asarray(arg))
+            allp = pc_.get_peak_indices(sobj_)                                      # signal-level wrapper
             co = pc_.get_n_cyc_array(arg)                                           # defaults: opt='all', start='origin'
         recs.append({"tid": tid, "x": enc_seq(x), "all": [int(i) for i in allp], "mx": [int(i) for i in mx],
                      "mn": [int(i) for i in mn], "cyco": enc_seq(co), "cycp": enc_seq(cp)})
